@@ -199,10 +199,16 @@ func genKC(t *rapid.T) kcCase {
 		c.Modulus[0] = 0x80
 	}
 	c.KeySize = uint32(ml * 8)
-	if rapid.IntRange(0, 3).Draw(t, "primes") == 0 {
+	switch rapid.IntRange(0, 5).Draw(t, "primes") {
+	case 0:
 		pl := rapid.IntRange(1, 150).Draw(t, "primeLen")
 		c.Prime1 = rapid.SliceOfN(rapid.Byte(), pl, pl).Draw(t, "p1")
 		c.Prime2 = rapid.SliceOfN(rapid.Byte(), pl, pl).Draw(t, "p2")
+	case 1:
+		// the two primes have lengths of their own (one may be absent)
+		l1, l2 := rapid.IntRange(0, 150).Draw(t, "prime1Len"), rapid.IntRange(0, 150).Draw(t, "prime2Len")
+		c.Prime1 = rapid.SliceOfN(rapid.Byte(), l1, l1).Draw(t, "p1")
+		c.Prime2 = rapid.SliceOfN(rapid.Byte(), l2, l2).Draw(t, "p2")
 	}
 	c.Device = rapid.SliceOfN(rapid.Byte(), 16, 16).Draw(t, "device")
 	tick := func(label string) uint64 {
